@@ -22,11 +22,12 @@
      everything after that '!' is the path, which may itself contain '!' and '@'.
      The starred group can iterate at most once.
 
-   parse_fs_url then does [if not credentials: ... url = url2]: an EMPTY credentials
-   group (as in "x://@host") takes the no-credentials branch where url2 is None, and
-   [None.partition] raises AttributeError.  Otherwise credentials.partition(":") gives
-   user and password (password "" when there is no ':'), url.partition("?") gives
-   resource and query string.  This file keeps all pieces raw (still percent-encoded);
+   parse_fs_url then tests [credentials is None]: without an '@' there are no credentials;
+   otherwise credentials.partition(":") gives user and password (password "" when there is
+   no ':'; an EMPTY credentials group, as in "x://@host", gives user "" and password "").
+   url.partition("?") gives resource and query string.  (Before the repair the test was
+   [if not credentials], which sent the empty group to the branch where url2 is None and
+   raised AttributeError.)  This file keeps all pieces raw (still percent-encoded);
    unquote / parse_qs are applied by the harness on both sides. *)
 From Coq Require Import List NArith Bool Lia Ascii String.
 Import ListNotations.
@@ -131,7 +132,6 @@ Definition url_parse (s : str) : outcome parts :=
   | Some g =>
     match g_creds g with
     | None => Ok (finish g None)
-    | Some [] => Crash AttributeError
     | Some cr =>
       let (u, p) := partition_c c_colon cr in
       Ok (finish g (Some (u, match p with Some p => p | None => [] end)))
@@ -206,11 +206,11 @@ Definition parts_eqb (a b : parts) : bool :=
   && ostr_eqb (p_params a) (p_params b)
   && ostr_eqb (p_path a) (p_path b).
 
-(* expected outcome as written by the harness: 0 = ParseError, 1 = AttributeError, 2 = parts *)
+(* expected outcome as written by the harness: 0 = ParseError, 2 = parts; any other code (an
+   exception of the real code) agrees with nothing *)
 Definition parse_agrees (s : str) (code : N) (p : parts) : bool :=
   match url_parse s, code with
   | Err ParseError, 0 => true
-  | Crash AttributeError, 1 => true
   | Ok q, 2 => parts_eqb q p
   | _, _ => false
   end.
